@@ -24,6 +24,8 @@ OBLIGATIONS = [NS + t for t in [
     "gaussian_data_matters", "gaussian_rms_matters", "cash_data_matters", "huber_data_matters", "polarity",
     "agree_filter", "meanRms_agree",
 ]]
+# translated source text proved equal to the model definitions this property's theorems are about
+GEN_KERNELS = ["losses"]
 MIRRORED_FILES = ["pysersic/loss.py", "pysersic/pysersic.py", "pysersic/multiband.py"]
 ASSUMPTIONS = [
     "handlers.mask zeroes masked elements of observed/factor sites (numpyro semantics; observed through real traces)",
